@@ -108,6 +108,80 @@ fn odist(m: Metric, a: &[f64], b: &[f64]) -> f64 {
     }
 }
 
+/// The provided metrics themselves, called the way the indices and their users call them: on row
+/// views and on whole matrices, in every memory layout a view can have (standard, strided,
+/// backwards, column-major), `distance` and `rdistance` against the textbook value.
+fn metric_layout_case<F: Float>(c: &mut Case, m: Metric) -> Outcome {
+    use linfa_nn::distance::Distance;
+    let e = eps_of::<F>();
+    let dim = c.rng.gen_range(1..=16usize);
+    let scale = *[1.0, 1.0, 1e-3, 1e3].choose(&mut c.rng).unwrap();
+    let a64: Vec<f64> = (0..dim).map(|_| F::cast(crate::gen::normal(&mut c.rng) * scale).to_f64().unwrap()).collect();
+    let b64: Vec<f64> = (0..dim).map(|_| F::cast(crate::gen::normal(&mut c.rng) * scale).to_f64().unwrap()).collect();
+    let want = odist(m, &a64, &b64);
+    let sabs: f64 = a64.iter().zip(&b64).map(|(x, y)| (x - y).abs()).sum();
+    let tol = 16.0 * (dim as f64 + 4.0) * e * sabs + f64::MIN_POSITIVE;
+    // layouts of a logical vector v: standard / every second cell / stored backwards
+    let lay = |v: &[f64], l: usize| -> (Array1<F>, usize) {
+        match l {
+            0 => (Array1::from_iter(v.iter().map(|x| F::cast(*x))), 0),
+            1 => (Array1::from_shape_fn(2 * v.len(), |i| if i % 2 == 0 { F::cast(v[i / 2]) } else { F::cast(-77.0) }), 1),
+            _ => (Array1::from_shape_fn(v.len(), |i| F::cast(v[v.len() - 1 - i])), 2),
+        }
+    };
+    let names = ["standard", "stride-2", "backwards"];
+    macro_rules! with_metric {
+        ($f:expr) => {
+            match m {
+                Metric::L1 => $f(L1Dist),
+                Metric::L2 => $f(L2Dist),
+                Metric::Linf => $f(LInfDist),
+                Metric::Lp(p) => $f(LpDist(F::cast(p))),
+            }
+        };
+    }
+    for la in 0..3 {
+        for lb in 0..3 {
+            let (sa, ka) = lay(&a64, la);
+            let (sb, kb) = lay(&b64, lb);
+            let va = match ka { 0 => sa.view(), 1 => sa.slice(s![..;2]), _ => sa.slice(s![..;-1]) };
+            let vb = match kb { 0 => sb.view(), 1 => sb.slice(s![..;2]), _ => sb.slice(s![..;-1]) };
+            let (d, rd, rd2d) = with_metric!(|df| {
+                let d = Distance::<F>::distance(&df, va, vb).to_f64().unwrap();
+                let rd = Distance::<F>::rdistance(&df, va, vb);
+                (d, Distance::<F>::rdist_to_dist(&df, rd).to_f64().unwrap(), Distance::<F>::dist_to_rdist(&df, F::cast(want)).to_f64().unwrap())
+            });
+            let _ = rd2d;
+            ensure!((d - want).abs() <= tol, "C07/metric/distance-depends-on-memory-layout-or-wrong",
+                {"metric": m.name(), "a": a64, "b": b64, "layout_a": names[la], "layout_b": names[lb], "distance": d, "textbook": want, "tol": tol});
+            ensure!((rd - want).abs() <= 2.0 * tol, "C07/metric/rdistance-depends-on-memory-layout-or-wrong",
+                {"metric": m.name(), "a": a64, "b": b64, "layout_a": names[la], "layout_b": names[lb], "rdist_to_dist(rdistance)": rd, "textbook": want, "tol": tol});
+        }
+    }
+    // whole matrices (k-means measures the shift of its centroid matrix this way): C order against
+    // column-major and against rows stored back to front
+    let (r, cc) = (c.rng.gen_range(1..=5usize), c.rng.gen_range(1..=6usize));
+    let a2 = Array2::<F>::from_shape_fn((r, cc), |_| F::cast(crate::gen::normal(&mut c.rng) * scale));
+    let b2 = Array2::<F>::from_shape_fn((r, cc), |_| F::cast(crate::gen::normal(&mut c.rng) * scale));
+    let fa: Vec<f64> = a2.iter().map(|x| x.to_f64().unwrap()).collect();
+    let fb: Vec<f64> = b2.iter().map(|x| x.to_f64().unwrap()).collect();
+    let want2 = odist(m, &fa, &fb);
+    let sabs2: f64 = fa.iter().zip(&fb).map(|(x, y)| (x - y).abs()).sum();
+    let tol2 = 16.0 * ((r * cc) as f64 + 4.0) * e * sabs2 + f64::MIN_POSITIVE;
+    let mut bt = Array2::<F>::zeros((cc, r));
+    bt.assign(&b2.t());
+    let b_f = bt.view().reversed_axes(); // logical b2, column-major
+    let brev = Array2::<F>::from_shape_fn((r, cc), |(i, j)| b2[[r - 1 - i, j]]);
+    let b_r = brev.slice(s![..;-1, ..]); // logical b2, negative row stride
+    for (nm, vb) in [("column-major", b_f), ("rows-backwards", b_r)] {
+        let d = with_metric!(|df| Distance::<F>::distance(&df, a2.view(), vb).to_f64().unwrap());
+        ensure!((d - want2).abs() <= tol2, "C07/metric/matrix-distance-depends-on-memory-layout-or-wrong",
+            {"metric": m.name(), "shape": [r, cc], "layout_b": nm, "distance": d, "textbook": want2, "tol": tol2});
+    }
+    c.evals = 11;
+    held(dim >= 2, format!("metric-layout {} d{dim} {:x}", m.name(), c.idx))
+}
+
 fn f64s<F: Float>(v: ArrayView1<F>) -> Vec<f64> {
     v.iter().map(|x| x.to_f64().unwrap()).collect()
 }
@@ -1358,6 +1432,10 @@ pub fn run(ctx: &Ctx) {
         if c.idx % 2 == 0 { errors_case::<f64>(c, m) } else { errors_case::<f32>(c, m) }
     });
 
+    ctx.family("metric-layouts", ctx.tier.pick(1400, 14000), |c| {
+        let m = METRICS[(c.idx / 2) as usize % NM];
+        if c.idx % 2 == 0 { metric_layout_case::<f64>(c, m) } else { metric_layout_case::<f32>(c, m) }
+    });
     lap("errors");
     let n1 = count_sequences(4, 4);
     ctx.family("exhaustive-1d", n1, |c| {
